@@ -5,7 +5,7 @@
    same way); src_quiet f p: no later call on p, executed that way, returns a value.  An edit of a __next__ in the source
    that changes the translated term breaks Pat/StepSrc.v and with it these theorems: a broken proof obligation of C09.
    Lemmas: Pat/StickySrc.v. *)
-From Isobar Require Import Base.Prelude Pat.Val Pat.Syntax Pat.Step Pat.StepProofs Pat.IterProofs Pat.StickyProofs
+From Isobar Require Import Base.Prelude Pat.Val Pat.Syntax Pat.Step Pat.StepProofs Pat.IterProofs Pat.StickyProofs Pat.StickyConcat Pat.StickyProofs2
   Generated.TablesStep Pat.StepSrc Pat.StickySrc.
 From Coq Require Import String QArith.
 Open Scope Z_scope.
@@ -35,8 +35,22 @@ Section AnyOperators.
     (forall o x y, binop o x y <> Stop) ->
     fpat p -> src_step binop LMAX f p = (Stop, p') -> forall f2, src_quiet binop LMAX f2 p'.
   Proof. exact (src_sticky_transformers binop LMAX). Qed.
+  (* PConcatenate.__next__ as written: once it has raised StopIteration no later call returns a value *)
+  Theorem C09_src_sticky_concatenate : forall f l pos p',
+    (forall o x y, binop o x y <> Stop) ->
+    Forall farg l ->
+    src_PConcatenate_next Val.binop (value binop LMAX) (anext binop LMAX) f (step binop LMAX) (AL l) pos = (Stop, p') ->
+    forall f2, src_quiet binop LMAX f2 p'.
+  Proof. exact (src_sticky_concatenate binop LMAX). Qed.
+  (* PArrayIndex.__next__ as written (repair C09-parrayindex-revives): StopIteration sets the flag, and the object stays ended *)
+  Theorem C09_src_arrayindex_sticky : forall f l i e p',
+    src_PArrayIndex_next Val.binop (value binop LMAX) (anext binop LMAX) f l i e = (Stop, p') ->
+    (exists l' i', p' = PArrayIndex l' i' true) /\ forall f2, src_quiet binop LMAX f2 p'.
+  Proof. exact (src_arrayindex_sticky binop LMAX). Qed.
 End AnyOperators.
 Print Assumptions C09_src_step_is_step.
 Print Assumptions C09_src_sticky_counter_classes.
 Print Assumptions C09_src_sticky.
 Print Assumptions C09_src_sticky_transformers.
+Print Assumptions C09_src_sticky_concatenate.
+Print Assumptions C09_src_arrayindex_sticky.
